@@ -1,5 +1,6 @@
 """C02 - model evaluation (EagerModel) returns the exact value."""
 import random
+from fractions import Fraction
 
 from . import bp as B
 from . import gen as G
@@ -292,6 +293,8 @@ def run(rep):
             ck.check(wl + '_partial', b2, A, (rng.choice(names),))
         if i % 3000 == 0:
             common.fresh_env()
+    if not rep.only or rep.only == 'after_failure':
+        after_failure_cases(ck, rep, rng, 40 if rep.tier == 'quick' else 3000)
     # --- random QF, UF-free formulas of every result type
     n_rand = 1500 if rep.tier == 'quick' else 100000
     cfgs = [G.Cfg(quant=False, uf=False, custom=False),
@@ -329,6 +332,54 @@ def run(rep):
                       {'bp': B.to_json(fb) if fb else None, 'kind': name})
     del M.PENDING[:]
     rep.count('contract_evals', M.COUNTS.get('get_value_contract', 0))
+
+
+def after_failure_cases(ck, rep, rng, n):
+    """An evaluation that raises half-way (0 ** -1 inside the formula),
+    then evaluations of related formulas under *another* model in the same
+    environment: they must still be exact."""
+    from pysmt.environment import get_env
+    cfg = G.Cfg(quant=False, uf=False, custom=False, arrays=False,
+                strings=False, max_depth=3)
+    z = B.Sym('c02_z', B.REAL)
+    bad = ('lt', None, (('pow', None, (z, B.Real(-1))), B.Real(1)))
+    for k in range(n):
+        if rep.out_of_time():
+            break
+        if k % 10 == 0:
+            common.fresh_env()
+        env = get_env()
+        g = G.Gen(rng, cfg)
+        b = g.term(B.BOOL)
+        A1 = total_assignment(b, rng)
+        A2 = total_assignment(b, rng, corner=True)
+        wrapped = ('and', None, (b, bad)) if k % 2 else \
+            ('or', None, (bad, b))
+        try:
+            f = B.build(wrapped, env)
+            syms = dict(B.free_syms(B.describe(f)))
+            A1z = dict(A1)
+            A1z['c02_z'] = Fraction(0)
+            m1 = ck.make_model(dict((n_, A1z[n_]) for n_ in syms), syms, env)
+        except Exception:
+            rep.count('build_rejected_or_outside')
+            continue
+        try:
+            m1.get_value(f)
+            rep.count('evaluation_did_not_fail')
+        except Exception:
+            rep.count('failing_evaluations')
+        # the same and related formulas under another model
+        subs = [s for s in B.subterms(b) if s[2]][:3]
+        for b2 in [b] + subs:
+            try:
+                t2 = B.typeof(b2)
+            except B.IllTyped:
+                continue
+            A = dict(A2)
+            for (n_, t_) in B.free_syms(b2):
+                A.setdefault(n_, R.rand_value(t_, rng))
+            ck.check('after_failure', b2, A)
 
 
 def replay(case, rep):
